@@ -30,11 +30,11 @@ func (u *Universe) smtText(o *Obligation, forCVC5 bool, wantModel bool) string {
 	var body strings.Builder
 	for _, f := range o.Facts {
 		body.WriteString("(assert ")
-		body.WriteString(f)
+		body.WriteString(canonBound(f))
 		body.WriteString(")\n")
 	}
 	body.WriteString("(assert (not ")
-	body.WriteString(o.Goal)
+	body.WriteString(canonBound(o.Goal))
 	body.WriteString("))\n")
 	text := body.String()
 	syms := map[string]bool{}
@@ -165,6 +165,16 @@ func (u *Universe) Solve(o *Obligation, dir string, timeoutS int, thorough bool)
 		res.Status, res.Backend, res.Ms, res.Output = st, "z3-new", ms, out
 		return res
 	}
+	// stage 0: the goal is, up to the names of bound variables, one of the assumed facts (invariants that only talk
+	// about the loop-entry state are preserved this way; solvers do not recognise alpha-equivalent quantified formulas)
+	if g := alphaNorm(o.Goal); strings.Contains(g, "!Q") {
+		for _, f := range o.Facts {
+			if len(f) == len(o.Goal) && alphaNorm(f) == g {
+				res.Status, res.Backend, res.Ms, res.Output = "unsat", "syntactic", 0, "goal is alpha-equivalent to an assumption"
+				return res
+			}
+		}
+	}
 	ctx, cancel := context.WithCancel(context.Background())
 	defer cancel()
 	// stage 1: z3-new in its default and its e-matching configuration, short
@@ -225,6 +235,37 @@ func (u *Universe) Solve(o *Obligation, dir string, timeoutS int, thorough bool)
 		os.WriteFile(fs, []byte(u.smtText(so, false, false)), 0o644)
 		variants = append(variants, variant{solvers[0], fs, fmt.Sprintf("z3-new/slice%d", hops)})
 		variants = append(variants, variant{solvers[1], fs, fmt.Sprintf("z3-new/ematch/slice%d", hops)})
+	}
+	// tail variants: only the most recent facts (chains of anchor assertions build on the step just assumed; in
+	// isolation such a step is immediate, within hundreds of quantified facts it is not found)
+	for _, k := range []int{1, 2, 4, 8} {
+		if len(o.Facts) <= k {
+			continue
+		}
+		n := *o
+		tail := o.Facts[len(o.Facts)-k:]
+		// definitional axioms of opaque defines (od$...) named by the goal or the tail stay available
+		need := map[string]bool{}
+		for _, t := range append([]string{o.Goal}, tail...) {
+			for _, m := range reOdSym.FindAllString(t, -1) {
+				need[m] = true
+			}
+		}
+		n.Facts = nil
+		seenAx := map[string]bool{}
+		for _, f := range o.Facts[:len(o.Facts)-k] {
+			if strings.HasPrefix(f, "(forall") && strings.Contains(f, ":pattern ((od$") {
+				if m := reOdSym.FindString(f[strings.Index(f, ":pattern ((od$"):]); need[m] && !seenAx[m] {
+					seenAx[m] = true
+					n.Facts = append(n.Facts, f)
+				}
+			}
+		}
+		n.Facts = append(n.Facts, tail...)
+		n.Result = nil
+		fs := fmt.Sprintf("%s.tail%d.smt2", base, k)
+		os.WriteFile(fs, []byte(u.smtText(&n, false, false)), 0o644)
+		variants = append(variants, variant{solvers[0], fs, fmt.Sprintf("z3-new/slice-tail%d", k)})
 	}
 	type ans struct {
 		name, st, out string
@@ -383,4 +424,21 @@ func (u *Universe) SolveAllQuick(obls []*Obligation, dir string, timeoutS int, p
 		}()
 	}
 	wg.Wait()
+}
+
+var reOdSym = regexp.MustCompile(`od\$[A-Za-z0-9_.]+\$[0-9a-f]+`)
+
+var boundVarRe = regexp.MustCompile(`![qw][0-9]+`)
+
+// alphaNorm renames bound variables (x!q12, y!w3) in order of first occurrence.
+func alphaNorm(f string) string {
+	m := map[string]string{}
+	return boundVarRe.ReplaceAllStringFunc(f, func(x string) string {
+		if r, ok := m[x]; ok {
+			return r
+		}
+		r := fmt.Sprintf("!Q%d", len(m))
+		m[x] = r
+		return r
+	})
 }
